@@ -1191,7 +1191,18 @@ def dag_nodes(t) -> List[tuple]:
     return out
 
 
+_NORMALISED: set = set()
+
+
 def normalise(t):
+    if id(t) in _NORMALISED:
+        return t
+    r = _normalise(t)
+    _NORMALISED.add(id(r))  # interned terms live for the whole run, so their ids are stable
+    return r
+
+
+def _normalise(t):
     # canonical bound-variable names first: two evaluations of the same code must compare equal during rewriting
     t = intern_term(_alpha(t))
     memo = {}
